@@ -216,6 +216,81 @@ def gen_cases(ctx, configs, probes):
         cases.append(history(c, runs, salt=i))
     # (3) several different fits in one output directory
     cases += gen_neighbours(ctx, by_key, vocab)
+    # (4) death by a propagating exception raised where user code runs (every hook point x BaseException / Exception kind)
+    cases += gen_exceptions(ctx, by_key, keys)
+    return cases
+
+
+# ---------------------------------------------------------------------------
+# death by a propagating exception at the points where USER code runs inside the fit
+# ---------------------------------------------------------------------------
+
+HOOK_POINTS = [("modify_before_fit", 0), ("save_attributes", 0), ("save_attributes", 1), ("save_results", 0), ("save_results", 1),
+               ("save_results_combined", 0), ("save_results_combined", 1), ("modify_after_fit", 0)]
+VIS_POINTS = [("visualize_before_fit", 0), ("visualize_before_fit_combined", 0), ("visualize", 0), ("visualize_combined", 0)]
+RESULT_HOOKS = ("save_attributes", "save_results", "save_results_combined")
+BASE_KINDS = ["KeyboardInterrupt", "SystemExit"]          # BaseException only: not caught by `except Exception`
+EXC_KINDS = ["MemoryError", "OSError", "RuntimeError"]    # Exception subclasses
+
+
+def raise_at(name, occ, exc, nth=0):
+    return {"crash": {"kind": "EXC", "role": name, "occ": occ, "variant": "raise", "exc": exc, "nth": nth}}
+
+
+def gen_exceptions(ctx, by_key, keys):
+    """Histories in which a run ends by an exception raised in user code (not by a kill): at every user hook of the fit
+    life-cycle, on entry and after the hook's own work, and at likelihood calls (first, some, the last ones = the timing
+    calls of the final update); one BaseException-only kind and one Exception kind per point; fresh runs, resumed runs and
+    re-runs of a completed fit; always followed by two uninterrupted runs. The same set of points for every seed; the
+    configuration and the kind within its group are drawn."""
+    rng = ctx.rng
+    thorough = ctx.tier == "thorough"
+    cases = []
+    n = [0]
+
+    def add(c, runs, **kw):
+        h = history(c, runs, salt=3000 + n[0])
+        h.update(kw)
+        n[0] += 1
+        cases.append(h)
+
+    def evals_of(k):
+        return by_key[k][1]["runs"][0].get("evals") or 1
+
+    for rep in range(3 if thorough else 1):
+        for name, occ in HOOK_POINTS:
+            for kinds in (BASE_KINDS, EXC_KINDS):
+                c, _ = by_key[rng.choice(keys)]
+                add(c, [raise_at(name, occ, rng.choice(kinds)), FULL, FULL])
+        for name, occ in VIS_POINTS:
+            for kinds in (BASE_KINDS, EXC_KINDS):
+                c, _ = by_key[rng.choice(keys)]
+                add(c, [raise_at(name, occ, rng.choice(kinds)), FULL, FULL], vis=1)
+        # the likelihood itself: first call, a call in the middle, the last two calls (perform_update's timing calls, between
+        # the final samples output and search.summary / save_results)
+        for which in ("first", "middle", "last", "last-1"):
+            for kinds in (BASE_KINDS, EXC_KINDS):
+                k = rng.choice(keys)
+                c, _ = by_key[k]
+                e = evals_of(k)
+                occ = {"first": 0, "middle": rng.randint(1, max(1, e - 3)), "last": e - 1, "last-1": max(0, e - 2)}[which]
+                add(c, [raise_at("LL", occ, rng.choice(kinds)), FULL, FULL])
+        # a resumed run dies the same way; the re-run of a completed fit dies in the hooks it still calls
+        c, _ = by_key[rng.choice(keys)]
+        add(c, [raise_at("save_results", 0, rng.choice(BASE_KINDS)), raise_at("save_results_combined", 0, rng.choice(EXC_KINDS)), FULL, FULL])
+        c, _ = by_key[rng.choice(keys)]
+        add(c, [raise_at("save_results", 1, rng.choice(EXC_KINDS)), raise_at("modify_after_fit", 0, rng.choice(BASE_KINDS)), FULL, FULL])
+        for name in ("modify_before_fit", "modify_after_fit"):
+            c, _ = by_key[rng.choice(keys)]
+            add(c, [FULL, raise_at(name, 0, rng.choice(BASE_KINDS + EXC_KINDS)), FULL, FULL])
+        c, _ = by_key[rng.choice(keys)]
+        add(c, [FULL, raise_at("visualize_before_fit", 0, rng.choice(BASE_KINDS + EXC_KINDS)), FULL, FULL], vis=1)
+        # oracle-only searches
+        for k in sorted(by_key):
+            if k.startswith(("dynesty", "pyswarms")) and (thorough or rng.random() < 0.5):
+                c, _ = by_key[k]
+                name, occ = rng.choice([("save_results", 0), ("save_results_combined", 0), ("save_results", 1)])
+                add(c, [raise_at(name, occ, rng.choice(BASE_KINDS + EXC_KINDS)), FULL, FULL])
     return cases
 
 
@@ -506,6 +581,8 @@ def labels(case):
             return ["archive-suffix-name"]
     crashes = [r["crash"] for r in case["runs"] if r.get("crash")]
     for cr in crashes:
+        if cr["kind"] == "EXC":
+            out.add("exception-death")
         if cr["kind"] in ("ZW",) and cr["variant"] in ("empty", "half"):
             out.add("zip-interrupted")
         if cr["kind"] == "W" and cr["role"] == "StartTime" and cr["variant"] == "empty":
@@ -530,6 +607,8 @@ def copy_ok(files, tag, csv):
     if not (full("Marker") and full("Summary") and d["Summary"][1] == tag and full("Results") and full("SearchSummary")):
         return False
     if not (full("ResultExtra") and d["ResultExtra"][1] == tag):      # what Analysis.save_results wrote
+        return False
+    if not full("Attr"):                                               # what Analysis.save_attributes wrote
         return False
     if csv and not (full("SamplesCsv") and d["SamplesCsv"][1] == tag and full("SamplesInfo")):
         return False
@@ -593,6 +672,32 @@ def stored_tag(fs, csv):
     return None
 
 
+def effective(fs):
+    return fs["zip"]["members"] if fs["zip"]["state"] == "full" else fs["files"]
+
+
+def marker_present(fs):
+    return any(r == "Marker" for r, st, t in effective(fs))
+
+
+def missing_of(fs, csv):
+    d = {r: (st, t) for r, st, t in effective(fs)}
+    need = ["Attr", "Summary", "Results", "SearchSummary", "ResultExtra"] + (["SamplesCsv", "SamplesInfo"] if csv else [])
+    bad = ["%s %s" % (r, "missing" if r not in d else d[r][0]) for r in need if r not in d or d[r][0] != "full"]
+    if not bad and "Summary" in d and "ResultExtra" in d and d["Summary"][1] != d["ResultExtra"][1]:
+        bad.append("ResultExtra of generation %s beside a summary of generation %s" % (d["ResultExtra"][1], d["Summary"][1]))
+    return ", ".join(bad) or "inconsistent generations"
+
+
+def describe_end(spec, run):
+    cr = spec.get("crash") if isinstance(spec, dict) else None
+    if run["outcome"] == "crashed" and run.get("death"):
+        return "ended by %s raised at %s#%s" % (run["death"], cr["role"], cr.get("occ", 0))
+    if run["outcome"] == "crashed":
+        return "killed"
+    return run["outcome"]
+
+
 def oracle_db(case, res):
     """DatabasePaths (session=...): uninterrupted runs only; the re-run must return what the first run returned."""
     fails = []
@@ -642,6 +747,7 @@ def oracle_neighbours(case, res):
         pc = dict(case)
         pc.pop("fits")
         pc["own_runs"] = own
+        pc["skip_marker_rules"] = illegal_names(case)
         pc["fit_label"] = "fit %d '%s'" % (f, fit_label(spec))
         runs = []
         for i, run in enumerate(res["runs"]):
@@ -681,6 +787,7 @@ def oracle(case, res):
     done = None          # (run index, generation) at which the fit became complete (.completed with its result files)
     ref = None           # first result returned after / at completion
     dill_ref = None
+    marker_before = False
     for i, (spec, run) in enumerate(zip(case["runs"], res["runs"])):
         out = run["outcome"]
         if out == "driver-error":
@@ -691,6 +798,23 @@ def oracle(case, res):
         if run.get("bad_rename"):
             fails.append(("rename-incomplete", "run %d renamed a temporary file that was not closed and complete onto its final name: %s "
                           "(a kill before it is closed leaves a truncated file under the final name)" % (i, run["bad_rename"])))
+        # (marker) `.completed` (in the archive if there is a readable one, else in the folder) implies every result file the
+        # completed fit promises -- after every run, however it ended (kill, exception travelling through the library, normal)
+        has_marker = marker_present(run["fs"])
+        if has_marker and stored_tag(run["fs"], case["csv"]) is None and not case.get("skip_marker_rules"):
+            fails.append(("marker-incomplete", "after run %d (%s) `.completed` exists but the result files of a completed fit are not all "
+                          "in place: %s" % (i, describe_end(spec, run), missing_of(run["fs"], case["csv"]))))
+        if has_marker and not marker_before and out != "other" and run.get("hooks") is not None and not case.get("skip_marker_rules"):
+            # the run that marks the fit complete has run the user's output hooks to their end
+            ended = {h[0] for h in run["hooks"] if h[1] == 1 and not h[3]}
+            for hname in RESULT_HOOKS:
+                if hname not in ended:
+                    fails.append(("hook-skipped", "run %d (%s) marked the fit complete although Analysis.%s did not run to its end in it "
+                                  "(later runs find `.completed` and never call it)" % (i, describe_end(spec, run), hname)))
+        marker_before = marker_before or has_marker
+        if run.get("swallowed"):
+            fails.append(("exception-swallowed", "run %d: the %s raised in user code (%s) did not end the run: the library caught it and went on" % (
+                i, run["swallowed"], (spec.get("crash") or {}).get("role"))))
         was_done = done
         if done is None:
             g = stored_tag(run["fs"], case["csv"])
@@ -840,7 +964,9 @@ def c_run(run):
     out = run["outcome"]
     if out == "crashed":
         k = run["crash_index"]
-        variant = {"before": "VBefore", "empty": "VEmpty", "half": "VHalf"}[run["variant"]]
+        # an exception death = the first k mutations of the run and nothing else (Raise.xrun_lib); what the library's handlers
+        # did while the exception propagated is in the trace and disagrees with that prediction
+        variant = {"before": "VBefore", "empty": "VEmpty", "half": "VHalf", "raise": "VBefore"}[run["variant"]]
         cr = "(Some (%s, %s))" % (cnat(k), variant)
         oc = "RCrashed"
         sampled = "None"
@@ -968,11 +1094,13 @@ def nontrivial(case, res):
 def short(case):
     def cs(r):
         cr = r.get("crash")
+        if cr and cr["kind"] == "EXC":
+            return "raise %s at %s#%d%s" % (cr["exc"], cr["role"], cr["occ"], "" if not cr.get("nth") else "(%d)" % cr["nth"])
         return "full" if not cr else "%s:%s#%d/%s" % (cr["kind"], cr["role"], cr["occ"], cr["variant"])
     if case.get("fits"):
         return {"config": cfg_key(case), "fits": [fit_label(f) for f in case["fits"]],
                 "runs": ["fit%d:%s" % (r["fit"], cs(r)) for r in case["runs"]]}
-    return {"config": cfg_key(case), "runs": [cs(r) for r in case["runs"]]}
+    return {"config": cfg_key(case) + ("-vis" if case.get("vis") else ""), "runs": [cs(r) for r in case["runs"]]}
 
 
 def run(ctx):
@@ -985,7 +1113,13 @@ def run(ctx):
                 "only. Neighbours histories: 2-3 DIFFERENT fits (own name / path prefix / unique tag / model, with or without the identifier "
                 "folder; names with dots, one a prefix of the other, differing only after the last dot, '.zip'/'.tmp' inside) run in one output "
                 "directory in any order with kills in between (12 per quick run, 4 shapes fixed: dotted siblings without identifier folder), each "
-                "fit judged on the whole history; plus one pair <stem> / <stem>.zip (known finding). Non-trivial = some run was really killed and a later run ran to its end (database histories: at least two runs); "
+                "fit judged on the whole history; plus one pair <stem> / <stem>.zip (known finding). Exception deaths: a run ended by an exception "
+                "raised in user code and travelling through the library's try/finally / except blocks (not a kill): at every user hook "
+                "(modify_before_fit, save_attributes, visualize_before_fit[_combined], visualize[_combined], save_results, save_results_combined, "
+                "modify_after_fit; on entry and after the hook's work) and at the first / a middle / the last two likelihood calls, one BaseException-only "
+                "kind (KeyboardInterrupt | SystemExit) and one Exception kind (MemoryError | OSError | RuntimeError) per point, in fresh runs, resumed "
+                "runs and re-runs of a completed fit -- the same ~45 points in every quick run (x3 configurations in the thorough tier), reported to "
+                "the model as (mutations so far, killed-before) with everything written during propagation in the trace. Non-trivial = some run was really killed and a later run ran to its end (database histories: at least two runs); "
                 "distinct = distinct (settings, run list)")
     ctx.trusted = [
         "Coq 8.16.1 kernel incl. vm_compute",
@@ -1179,6 +1313,11 @@ MANIFEST = {
             "recoverable states resume to a complete result (resume; unconditional for the repaired code), with _refuted witnesses for the "
             "archive-write window, LBFGS resume, truncated search state / summary, empty timer files; vm_compute correspondence of the model "
             "with real killed/re-run fits (trace, outcome, folder, archive) and a direct property oracle; "
+            "death by a propagating exception at every point where user code runs (Raise.v: library handlers as unwind operations; for any "
+            "history of runs, kills and exception deaths `.completed` implies a stored complete result, the next run resumes to a complete "
+            "result and a later run does not sample; the variant with paths.completed() in a finally block refuted), exercised by "
+            "raise-injecting Analysis hooks x BaseException / Exception kinds with the oracle rules marker-implies-promised-files and "
+            "marking-run-ran-every-output-hook; "
             "naming model (folder / archive / temporary archive / marker of a fit; suffixes translated fail-closed from _zip_path, zip_directory, "
             "_has_completed_path, output_path pinned) with theorems: the archive name determines the folder, two different legal fits share no "
             "name, and in any interleaving of runs and crashes of several fits in one directory each fit sees exactly its own history (hence "
